@@ -397,7 +397,8 @@ def c16(tier, seed, work):
             ("MCCipherSelect", "Mutant_CipherSelect_Concat.cfg", "C16_MalformedGivesErrorNotPartial"),
             ("MCCipherSelect", "Mutant_CipherSelect_Bound.cfg", "C16_AllRecordsExpandedInOrder"),
             ("DcmiPaging", "Mutant_DcmiPaging_Advance.cfg", "C16_AllRecordIDsInOrderNoDup"),
-            ("DcmiPaging", "Mutant_DcmiPaging_Fallback.cfg", "C16_AllRecordIDsInOrderNoDup")]
+            ("DcmiPaging", "Mutant_DcmiPaging_Fallback.cfg", "C16_AllRecordIDsInOrderNoDup"),
+            ("DcmiPaging", "Mutant_DcmiPaging_StopOnCount.cfg", "C16_AllRecordIDsInOrderNoDup")]
     return walk_check("C16", tier, seed, work, [("MCCipherSelect", "MC_CipherSelect.cfg"), ("MCCipherSelect", "MC_CipherSelect_Bound.cfg"),
                                                 ("DcmiPaging", "MC_DcmiPaging.cfg")],
                       muts if tier != "quick" else [], fams,
